@@ -140,6 +140,7 @@ static void op_isapprox(Ctx& c) {
   G X = elemA(c);
   // pair at controlled tangent distance: Y = X (+) d, |d|_inf = dist * factor
   double eps = c.thc2 == "eps" ? (double)manif::Constants<S>::eps : c.thc2 == "1e-9" ? 1e-9 : 1e-3;
+  if (sizeof(S) == 4 && eps < 1e-6) eps = (double)manif::Constants<S>::eps;   // a tolerance below single precision is meaningless for float
   double f = c.linc2 == "0" ? 0 : c.linc2 == "lo" ? 1.0 / 64 : c.linc2 == "hi" ? 64.0 : 1.0 / 1000;
   T d; for (int i = 0; i < T::DoF; ++i) d.coeffs()(i) = (S)(c.r.u(0.5, 1.0) * c.r.sign() * eps * f);
   G Y = X.rplus(d);
@@ -147,6 +148,10 @@ static void op_isapprox(Ctx& c) {
   o.num("xx", X.isApprox(X, (S)eps) ? 1 : 0); o.num("eqxx", (X == X) ? 1 : 0);
   o.num("xy", X.isApprox(Y, (S)eps) ? 1 : 0); o.num("yx", Y.isApprox(X, (S)eps) ? 1 : 0);
   o.vec("w", Y.rminus(X).coeffs());   // witness of Y (-) X, verified by the spec before use
+  // the coefficient-negated twin denotes the same transformation
+  Eigen::Matrix<S, G::RepSize, 1> cc = X.coeffs();
+  if (Info<G>::rot == QUAT) for (int k = 0; k < 4; ++k) cc(Info<G>::coff + k) = -cc(Info<G>::coff + k);
+  G Xt(cc); o.num("xt", X.isApprox(Xt, (S)eps) ? 1 : 0); o.num("tx", Xt.isApprox(X, (S)eps) ? 1 : 0); o.num("eqxt", (X == Xt) ? 1 : 0);
   o.end();
 }
 
